@@ -11,7 +11,16 @@ over ALL windows / row timestamps / row types / reader and writer zones, whether
 witnesses.  A descriptor with a witness is only a CANDIDATE: the witness is replayed against the real endpoint
 (boundary rows planted into the store, the endpoint called under the witness' TZ, rows offered vs admitted per scan by
 DB.QueryWithScans plus the HTTP response); only such real-code observations become violations.  Every observed leak /
-miss must belong to a descriptor TLC flagged (otherwise the model or the extraction is wrong: infrastructure error)."""
+miss must belong to a descriptor TLC flagged (otherwise the model or the extraction is wrong: infrastructure error).
+
+Sub-second resolution: the model's second has interior instants (QSec = 3 ticks) and a tick is replayed with a fractional
+part at positions 1 / 2 of its second (seeded; ns for LogQL, ms for Prometheus / Pyroscope; Tempo, Prometheus series /
+labels and query_range parameters are whole seconds by their parsers).  Prometheus selects get sub-second windows the
+three ways the reader allows: RFC 3339 evaluation times with a fraction, PromQL offsets and ranges with a millisecond part
+(descriptor field shift).  A timestamp literal that is not a named function of the request but lies in the second of one
+is extracted as `<function>~sub` (Window.tla BoundLit sub) - a candidate like any other, judged by boundary rows at ns / ms
+distance from both ends and at the starts of their seconds.  Rows strictly inside the window that a timestamp bound
+rejects are misses (Window.tla TsMiss), like rows an index date bound rejects."""
 import json
 import os
 import random
@@ -34,9 +43,9 @@ CONSTANTS
   Ticks <- MTicks
   DayTicks = 96
   Margin = 2
-  QSec = 2
-  Q15 = 4
-  QBucket = 5
+  QSec = 3
+  Q15 = 6
+  QBucket = 9
   Zones <- MZones
   Types <- MTypes
   WinLens <- MWinLens
@@ -46,7 +55,24 @@ INVARIANTS TypeOK RefClean WitnessSound WitnessComplete Report
 CHECK_DEADLOCK FALSE
 '''
 
-TS_PREF = ['none', 'sec', 'ms', 's15:floor', 's15:ceilp', 's15:ceilx', 'bucket:floor', 'bucket:ceilp', 'bucket:ceilx']
+TS_PREF = ['none', 'sec', 'ms', 's15:floor', 's15:ceilp', 's15:ceilps', 's15:ceilx', 'bucket:floor', 'bucket:ceilp', 'bucket:ceilps', 'bucket:ceilx']
+TS_PREF = TS_PREF + [p + '~sub' for p in TS_PREF]    # last: a literal in the second of a named derivation that is not the derivation itself
+
+# sub-second positions of a tick (Window.tla: QSec = 3 ticks, position 1 / 2 = a fractional part; Q15 = 6 ticks: the
+# second half of a 15 s quantum = whole seconds past the 15 s boundary): pools the seed draws from, in ns. Parts below
+# the unit of an API are cut by the driver (alignWin): LogQL keeps multiples of 1024 ns, Prometheus / Pyroscope
+# milliseconds, Tempo whole seconds.
+FRAC_LOW = [1000448, 37000192, 250000512, 499999744]
+FRAC_HIGH = [500000768, 750250496, 962000896, 999999488]
+SEC_PHASE = [1, 7, 8, 14]
+
+
+def concretiser(rng):
+    lo, hi, sp = rng.choice(FRAC_LOW), rng.choice(FRAC_HIGH), rng.choice(SEC_PHASE) * 10**9
+    def conc(t):
+        return BASE_NS + t * TICK_NS + ((t % 6) // 3) * sp + (0, lo, hi)[t % 3]
+    return conc, {'position_1_ns': lo, 'position_2_ns': hi, 'second_phase_ns': sp}
+
 DLO_PREF = ['utcFromM30', 'utcFrom', 'localFrom', 'localFromM30']
 DHI_PREF = ['utcTo', 'localTo', 'utcToM30', 'localToM30']
 
@@ -54,26 +80,41 @@ DHI_PREF = ['utcTo', 'localTo', 'utcToM30', 'localToM30']
 def ref_descs():
     """hand-written reference descriptors: the canonical bounds must be clean, known-bad ones must be flagged"""
     none_lo, none_hi = {'op': 'none', 'w': 'none'}, {'op': 'none', 'w': 'none', 'dir': 'floor'}
-    base = dict(kind='data', wrule='', agg15=False, sig=1, metric=False, upIncl=False, tlo=none_lo, thi=none_hi, dlo='none', dhi='none',
+    base = dict(kind='data', wrule='', agg15=False, shift=0, sig=1, metric=False, upIncl=False, tlo=none_lo, thi=none_hi, dlo='none', dhi='none',
                 tyf='set', tys={0, 1})
     r = []
     r.append(dict(base, ref='clean', tlo={'op': 'ge', 'w': 'none'}, thi={'op': 'lt', 'w': 'none', 'dir': 'floor'}))
     r.append(dict(base, ref='clean', kind='index', wrule='utc', dlo='utcFromM30', dhi='utcTo'))
     r.append(dict(base, ref='clean', agg15=True, metric=True, upIncl=True, tlo={'op': 'gt', 'w': 's15'}, thi={'op': 'le', 'w': 's15', 'dir': 'ceilp'}))
     r.append(dict(base, ref='clean', metric=True, tlo={'op': 'ge', 'w': 'bucket'}, thi={'op': 'lt', 'w': 'bucket', 'dir': 'ceilx'}))
+    r.append(dict(base, ref='clean', upIncl=True, tlo={'op': 'ge', 'w': 'none'}, thi={'op': 'le', 'w': 'none', 'dir': 'floor'}))
+    r.append(dict(base, ref='clean', metric=True, upIncl=True, tlo={'op': 'ge', 'w': 'sec'}, thi={'op': 'le', 'w': 's15', 'dir': 'ceilp'}))   # widening below the start
+    r.append(dict(base, ref='bad:miss', upIncl=True, tlo={'op': 'ge', 'w': 'none'}, thi={'op': 'le', 'w': 'sec', 'dir': 'floor'}))        # end cut to the second
+    r.append(dict(base, ref='bad:miss', metric=True, upIncl=True, tlo={'op': 'ge', 'w': 'none', 'sub': True}, thi={'op': 'le', 'w': 'none', 'dir': 'floor', 'sub': True}))  # garbled fraction
+    r.append(dict(base, ref='clean', metric=True, upIncl=True, shift=1, tlo={'op': 'ge', 'w': 's15'}, thi={'op': 'le', 'w': 's15', 'dir': 'ceilp'}))      # millisecond offset, exact
+    r.append(dict(base, ref='bad:leak', metric=True, upIncl=True, shift=1, tlo={'op': 'ge', 'w': 's15', 'sub': True}, thi={'op': 'le', 'w': 's15', 'dir': 'ceilp'}))  # ... cut below the widened start
+    r.append(dict(base, ref='bad:miss', metric=True, upIncl=True, tlo={'op': 'ge', 'w': 's15'}, thi={'op': 'le', 'w': 's15', 'dir': 'ceilps'}))  # fraction dropped before the ceiling
+    r.append(dict(base, ref='bad:leak', tlo={'op': 'ge', 'w': 'none', 'sub': True}, thi={'op': 'lt', 'w': 'none', 'dir': 'floor'}))      # start cut on a query that may not widen
     r.append(dict(base, ref='bad:leak', thi=none_hi, tlo={'op': 'ge', 'w': 'none'}))                       # no upper timestamp bound
     r.append(dict(base, ref='bad:leak', tlo={'op': 'ge', 'w': 'none'}, thi={'op': 'le', 'w': 'none', 'dir': 'floor'}))   # <= on an exclusive end
     r.append(dict(base, ref='bad:leak', tlo={'op': 'ge', 'w': 'none'}, thi={'op': 'lt', 'w': 'none', 'dir': 'floor'}, tyf='none', tys=set()))  # no type filter
     r.append(dict(base, ref='bad:miss', kind='index', wrule='utc', dlo='utcFromM30', dhi='localTo'))         # local date as upper bound
     r.append(dict(base, ref='bad:miss', kind='index', wrule='utc', dlo='utcFromM30', dhi='utcToM30'))        # FormatFromDate(to) as upper bound
     r.append(dict(base, ref='bad:miss', kind='index', wrule='utc', dlo='utcFrom', dhi='utcTo', tyf='set', tys={2, 0}))  # filter of the other signal
+    for d in r:
+        for b in ('tlo', 'thi'):
+            d[b] = dict({'sub': False}, **d[b])
     return r
 
 
+def bsig(b):
+    return b['w'] + ('~sub' if b.get('sub') else '')
+
+
 def desc_sig(d):
-    return '%s/%s%s sig=%d%s%s tlo=%s:%s thi=%s:%s:%s dlo=%s dhi=%s ty=%s' % (
+    return '%s/%s%s sig=%d%s%s%s tlo=%s:%s thi=%s:%s:%s dlo=%s dhi=%s ty=%s' % (
         d['kind'], d['wrule'] or '-', '/agg15' if d['agg15'] else '', d['sig'], ' metric' if d['metric'] else '', ' endIncl' if d['upIncl'] else '',
-        d['tlo']['op'], d['tlo']['w'], d['thi']['op'], d['thi']['w'], d['thi']['dir'], d['dlo'], d['dhi'],
+        ' subsec-shift' if d['shift'] else '', d['tlo']['op'], bsig(d['tlo']), d['thi']['op'], bsig(d['thi']), d['thi']['dir'], d['dlo'], d['dhi'],
         'none' if d['tyf'] == 'none' else ','.join(str(x) for x in sorted(d['tys'])))
 
 
@@ -84,10 +125,10 @@ def cause_sig(d, f):
     side = f.get('side')
     if side == 'ty' or f['why'] in ('other-signal', 'type-filter'):
         return '%s|type=%s' % (tbl, 'none' if d['tyf'] == 'none' else ','.join(str(x) for x in sorted(d['tys'])))
-    if f['kind'] == 'leak' and by_ts:
+    if (f['kind'] == 'leak' and by_ts) or f['why'] == 'ts-bound':
         if side == 'lo':
-            return '%s|tlo=%s:%s%s' % (tbl, d['tlo']['op'], d['tlo']['w'], '' if d['metric'] else ' (not a metric query)' if d['tlo']['w'] != 'none' else '')
-        return '%s|thi=%s:%s:%s%s' % (tbl, d['thi']['op'], d['thi']['w'], d['thi']['dir'], ' endIncl' if d['upIncl'] else '')
+            return '%s|tlo=%s:%s%s' % (tbl, d['tlo']['op'], bsig(d['tlo']), '' if d['metric'] else ' (not a metric query)' if bsig(d['tlo']) != 'none' else '')
+        return '%s|thi=%s:%s:%s%s' % (tbl, d['thi']['op'], bsig(d['thi']), d['thi']['dir'], ' endIncl' if d['upIncl'] else '')
     return '%s|%s=%s' % (tbl, 'dlo' if side == 'lo' else 'dhi', d['dlo'] if side == 'lo' else d['dhi'])
 
 
@@ -107,26 +148,28 @@ def to_desc(s, problems):
     if s.get('extra'):
         problems.append('%s: %s' % (where, s['extra'][:2]))
         return None
-    d = dict(ref='', kind=s['kind'], wrule=s['wrule'], agg15=s['table'] == 'metrics_15s', sig=s['signal'], metric=bool(s['metric']), upIncl=bool(s['up_incl']))
+    d = dict(ref='', kind=s['kind'], wrule=s['wrule'], agg15=s['table'] == 'metrics_15s', shift=1 if (s.get('lookback_ns', 0) + s.get('offset_ns', 0)) % 10**9 else 0, sig=s['signal'], metric=bool(s['metric']), upIncl=bool(s['up_incl']))
     swap = {1: 2, 2: 1, 0: 0}
     if s['ts_lo'] is None:
-        d['tlo'] = {'op': 'none', 'w': 'none'}
+        d['tlo'] = {'op': 'none', 'w': 'none', 'sub': False}
     else:
-        p = pick(s['ts_lo']['labels'], 'from:', TS_PREF)
-        if p is None or p.endswith(('ceilp', 'ceilx')):
+        p = pick(s['ts_lo']['labels'], 'from:', [x for x in TS_PREF if 'ceil' not in x])
+        if p is None:
             problems.append('%s: lower timestamp bound %s is no recognised function of the request (%s)' % (where, s['ts_lo']['texts'][:2], s['ts_lo']['labels']))
             return None
+        sub, p = p.endswith('~sub'), p.replace('~sub', '')
         w = p.split(':')[0]
-        d['tlo'] = {'op': s['ts_lo']['op'], 'w': 'sec' if w == 'ms' else w}
+        d['tlo'] = {'op': s['ts_lo']['op'], 'w': 'sec' if w == 'ms' else w, 'sub': sub}
     if s['ts_hi'] is None:
-        d['thi'] = {'op': 'none', 'w': 'none', 'dir': 'floor'}
+        d['thi'] = {'op': 'none', 'w': 'none', 'dir': 'floor', 'sub': False}
     else:
         p = pick(s['ts_hi']['labels'], 'to:', TS_PREF)
         if p is None:
             problems.append('%s: upper timestamp bound %s is no recognised function of the request (%s)' % (where, s['ts_hi']['texts'][:2], s['ts_hi']['labels']))
             return None
+        sub, p = p.endswith('~sub'), p.replace('~sub', '')
         f = p.split(':')
-        d['thi'] = {'op': s['ts_hi']['op'], 'w': 'sec' if f[0] == 'ms' else f[0], 'dir': f[1] if len(f) > 1 else 'floor'}
+        d['thi'] = {'op': s['ts_hi']['op'], 'w': 'sec' if f[0] == 'ms' else f[0], 'dir': f[1] if len(f) > 1 else 'floor', 'sub': sub}
     for fld, key, pref in (('dlo', 'd_lo', DLO_PREF), ('dhi', 'd_hi', DHI_PREF)):
         if s[key] is None:
             d[fld] = 'none'
@@ -215,6 +258,8 @@ def run(tier):
 def run_in(tier, sd):
     t_start = time.time()
     rng = random.Random(vlib.seed())
+    conc, conc_params = concretiser(random.Random(vlib.seed() * 7919 + 13))
+    seed_arg = ['-seed', str(vlib.seed() % (2**31))]
     binp = vlib.go_build('cmd/c13', 'c13')
     if tier == 'quick':
         zones = ['UTC', rng.choice(['America/New_York', 'Europe/Moscow'])]
@@ -226,8 +271,16 @@ def run_in(tier, sd):
         'writer\'s zone, whichever the real writer is observed to store in a process whose zone is not UTC); '
         'the rule is bound to the real writer by pushing records around a UTC midnight through the real routes in every driver process',
         'LogQL start/end are parsed as float64 by the controller: only multiples of 256 ns are representable, windows use multiples of 1024 ns',
-        'quanta of the model (second = 2 ticks, 15 s = 4 ticks, range bucket = 5 ticks) are abstract stand-ins; the concrete oracle of the driver uses the real quanta',
-        'window end convention per API: LogQL [start, end), Prometheus / Tempo / Pyroscope [start, end] (end inclusive); PromQL windows include the range / 5 min lookback before start',
+        'quanta of the model (second = 3 ticks: two interior sub-second positions, 15 s = 6 ticks, range bucket = 9 ticks) are abstract stand-ins; the concrete oracle of the '
+        'driver uses the real quanta. A tick at position 1 / 2 of its second is replayed with a fractional part drawn by the seed (ns for LogQL, ms for Prometheus / '
+        'Pyroscope), a tick in the second half of its 15 s quantum with whole seconds past the 15 s boundary',
+        'window end convention per API: LogQL [start, end), Prometheus / Tempo / Pyroscope [start, end] (end inclusive); PromQL windows include the range / 5 min lookback before start '
+        'and are shifted back by the offset of the selector: the window of a Prometheus select is [hints.Start, hints.End] as the engine asks for it',
+        'timestamp-bound misses are judged on rows STRICTLY inside the window (whether the end instants belong to it is the API convention) and only against explicit '
+        'timestamp / type predicates (the step-phase filter of sparse range queries narrows by design)',
+        'sub-second precision per API as the reader parses it: LogQL ns; Prometheus instant `time` as a number with decimals and as RFC 3339 with a fraction; Prometheus '
+        'query_range start / end, series, labels and Tempo whole seconds (query_range evaluates on a whole-second grid; series / labels / Tempo parse integers only); there the '
+        'sub-second part of a select window comes from PromQL offsets / ranges with a millisecond part; Pyroscope ms',
         'scans inside blocks with JOIN / ARRAY JOIN: the interpreter reports rows admitted by PREWHERE only; for those a leak needs the literal bounds of the statement to admit the row AND the response to show it',
         'tail (/loki/api/v1/tail) is not driven: its window is [now-5min, now) chosen by the reader itself over a websocket; it uses the same planner chain as query_range (log query)',
     ]
@@ -235,7 +288,7 @@ def run_in(tier, sd):
     procs = {}
     for z in zones:
         outp = os.path.join(sd, 'extract_%s.json' % z.replace('/', '_'))
-        procs[z] = (run_driver(binp, z, ['-mode', 'extract', '-tier', tier, '-clusters', ',c1', '-out', outp], 600), outp)
+        procs[z] = (run_driver(binp, z, ['-mode', 'extract', '-tier', tier, '-clusters', ',c1', '-out', outp] + seed_arg, 600), outp)
     extracts = wait_all(procs, 'extract', 300 if tier == 'quick' else 800)
     problems = []
     for z, ex in extracts.items():
@@ -333,17 +386,18 @@ def run_in(tier, sd):
             z = ZONE_OF[tzr]
             for w in lst[:per_key]:
                 for s in eps[:max_eps]:
-                    lookback = s.get('lookback_ns', 0)
-                    start = BASE_NS + w['from'] * TICK_NS + lookback
-                    end = BASE_NS + w['to'] * TICK_NS
+                    # the model's window is the DATA window; the API parameters lie lookback + offset later
+                    lookback, offset = s.get('lookback_ns', 0), s.get('offset_ns', 0)
+                    start = conc(w['from']) + lookback + offset
+                    end = conc(w['to']) + offset
                     if s.get('instant'):
                         start = end - 3600 * 10**9
-                    j = (z, s['endpoint'], s['cluster'], start, end, ZONE_OF[tzw], BASE_NS + w['ts'] * TICK_NS)
+                    j = (z, s['endpoint'], s['cluster'], start, end, ZONE_OF[tzw], conc(w['ts']))
                     if j in seen_jobs:
                         continue
                     seen_jobs.add(j)
                     jobs[z].append({'id': 'd%d-%s-%d' % (did, kind, len(jobs[z])), 'endpoint': s['endpoint'], 'cluster': s['cluster'], 'start_ns': start,
-                                    'end_ns': end, 'writer_tz': ZONE_OF[tzw] if by_id[did]['wrule'] == 'local' else '', 'extra_ts': [BASE_NS + w['ts'] * TICK_NS],
+                                    'end_ns': end, 'writer_tz': ZONE_OF[tzw] if by_id[did]['wrule'] == 'local' else '', 'extra_ts': [conc(w['ts'])],
                                     'desc': did, 'kind': kind, 'witness': w})
     procs = {}
     for z in sorted(jobs):
@@ -352,7 +406,7 @@ def run_in(tier, sd):
         inp = os.path.join(sd, 'jobs_%s.json' % z.replace('/', '_'))
         outp = os.path.join(sd, 'probe_%s.json' % z.replace('/', '_'))
         json.dump(jobs[z], open(inp, 'w'))
-        procs[z] = (run_driver(binp, z, ['-mode', 'probe', '-tempo-rule', tempo_rule, '-in', inp, '-out', outp], 600), outp)
+        procs[z] = (run_driver(binp, z, ['-mode', 'probe', '-tempo-rule', tempo_rule, '-in', inp, '-out', outp] + seed_arg, 600), outp)
     probes = wait_all(procs, 'probe', 300 if tier == 'quick' else 800)
     findings, n_probe, probe_errors = [], 0, []
     for z, ex in extracts.items():
@@ -461,7 +515,9 @@ def run_in(tier, sd):
         'candidates_refuted_or_unconfirmed': [('%s: %s' % (k[1], desc_sig(by_id[k[0]]))) for k in refuted],
         'witness_replays': sum(len(v) for v in jobs.values()),
         'real_code_observations': len(findings), 'writer_rule_observations': sum(len(ex['writer_obs']) for ex in extracts.values()),
-        'tempo_tag_date_rule_observed': tempo_rule,
+        'tempo_tag_date_rule_observed': tempo_rule, 'sub_second_concretisation': conc_params,
+        'sub_second_windows_replayed': sum(1 for v in jobs.values() for j in v if j['start_ns'] % 10**9 or j['end_ns'] % 10**9),
+        'observations_by_kind': {k: sum(1 for f in findings if (f['kind'] + '|' + f['why']) == k) for k in sorted(set(f['kind'] + '|' + f['why'] for f in findings))},
         'statements_rejected_by_the_interpreter_for_other_reasons': stmt_errors[:6],
         'requests_answered_non_2xx_after_running_sql': sum(len(ex.get('non2xx') or []) for ex in extracts.values()),
         'wall_s': round(time.time() - t_start, 1),
